@@ -636,6 +636,8 @@ impl TableNamespace {
 
     fn set_dirty(&mut self, transaction: &WriteTransaction) {
         transaction.dirty.store(true, Ordering::Release);
+        #[cfg(redb_verif)]
+        crate::verif_sched::pause("set_dirty.mid");
         if !transaction.transaction_tracker.any_savepoint_exists() {
             // No savepoints exist, and we don't allow savepoints to be created in a dirty transaction
             // so we can disable allocation tracking now
@@ -1282,6 +1284,8 @@ impl WriteTransaction {
         // allocation tracking -- leaving a live savepoint with tracking `Ignore`d. A later
         // `restore_savepoint()` would then fail to free this transaction's pages, leaking them
         // (reclaimed only by a full repair).
+        #[cfg(redb_verif)]
+        crate::verif_sched::pause("esp.before_lock");
         let (id, transaction_id) = {
             let _tables = self.tables.lock().unwrap();
             if self.dirty.load(Ordering::Acquire) {
@@ -1289,6 +1293,9 @@ impl WriteTransaction {
             }
             self.allocate_savepoint()?
         };
+        #[cfg(redb_verif)]
+        crate::verif_sched::pause("esp.registered");
+
         #[cfg(feature = "logging")]
         debug!("Creating savepoint id={id:?}, txn_id={transaction_id:?}");
 
@@ -1948,6 +1955,9 @@ impl WriteTransaction {
     fn abort_inner_impl(&mut self) -> Result {
         #[cfg(feature = "logging")]
         debug!("Aborting transaction id={:?}", self.transaction_id);
+        #[cfg(redb_verif)]
+        crate::verif_sched::pause("abort.before_rollback");
+
         self.tables
             .lock()
             .unwrap()
@@ -1983,6 +1993,8 @@ impl WriteTransaction {
             .transaction_tracker
             .oldest_live_read_transaction()
             .map_or(self.transaction_id, |x| x.next());
+        #[cfg(redb_verif)]
+        crate::verif_sched::pause("commit.horizon");
         self.process_freed_pages(free_until_transaction)?;
         // Flush allocated pages (including previously unpersisted allocations that are now
         // becoming durable) AFTER process_freed_pages, so that any pages reclaimed here have
@@ -2040,6 +2052,8 @@ impl WriteTransaction {
         };
 
         let page_allocator = self.page_allocator();
+        #[cfg(redb_verif)]
+        crate::verif_sched::pause("commit.before_publish");
         self.mem.commit(
             user_root,
             system_root,
@@ -2047,6 +2061,8 @@ impl WriteTransaction {
             self.two_phase_commit,
             self.shrink_policy,
         )?;
+        #[cfg(redb_verif)]
+        crate::verif_sched::pause("commit.published");
         // All of this transaction's allocations are durable; discard the per-txn tracker.
         let _ = page_allocator.take_allocated_since_commit();
 
@@ -2095,6 +2111,8 @@ impl WriteTransaction {
         if savepoint_horizon != u64::MAX {
             free_until = free_until.min(TransactionId::new(savepoint_horizon).next());
         }
+        #[cfg(redb_verif)]
+        crate::verif_sched::pause("epilogue.horizon");
 
         let mut freed_any = false;
         let (system_root, stored_system_freed_pages, extracted_data_transactions) = {
@@ -2133,6 +2151,8 @@ impl WriteTransaction {
         let epilogue_allocations = page_allocator.take_allocated_since_commit();
         self.mem
             .record_post_commit_allocations(epilogue_allocations.iter().copied());
+        #[cfg(redb_verif)]
+        crate::verif_sched::pause("epilogue.before_publish");
         self.mem.non_durable_commit(
             user_root,
             system_root,
@@ -2167,6 +2187,8 @@ impl WriteTransaction {
             .transaction_tracker
             .oldest_live_read_nondurable_transaction()
             .map_or(self.transaction_id, |x| x.next());
+        #[cfg(redb_verif)]
+        crate::verif_sched::pause("ndcommit.horizon");
         self.process_freed_pages_nondurable(free_until_transaction)?;
 
         let mut post_commit_frees = vec![];
@@ -2205,6 +2227,8 @@ impl WriteTransaction {
             self.transaction_id,
             newly_unpersisted,
         )?;
+        #[cfg(redb_verif)]
+        crate::verif_sched::pause("ndcommit.published");
         // Record the data-tree pages allocated in this transaction in the in-memory map.
         self.mem
             .record_unpersisted_allocations(self.transaction_id, allocated_pages);
@@ -2611,6 +2635,8 @@ impl WriteTransaction {
 
 impl Drop for WriteTransaction {
     fn drop(&mut self) {
+        #[cfg(redb_verif)]
+        crate::verif_sched::pause("wtxn.drop");
         if !self.completed && !crate::panicking() && !self.mem.storage_failure() {
             #[allow(unused_variables)]
             if let Err(error) = self.abort_inner() {
